@@ -485,9 +485,33 @@ func (st *c05Stats) inc(k string) {
 	st.mu.Unlock()
 }
 
+// c05Tally wraps the shared statistics; while a history's prefix is being replayed (quiet) nothing is counted, so every
+// number in the evidence counts explored transitions, not replays of them.
+type c05Tally struct {
+	st    *c05Stats
+	quiet bool
+}
+
+func (t *c05Tally) inc(k string) {
+	if !t.quiet {
+		t.st.inc(k)
+	}
+}
+func (t *c05Tally) delivered() {
+	if !t.quiet {
+		t.st.deliver.Add(1)
+	}
+}
+func (t *c05Tally) judged() {
+	if !t.quiet {
+		t.st.results.Add(1)
+	}
+}
+
 type c05Sim struct {
 	c     *mc.Check
 	st    *c05Stats
+	tl    c05Tally
 	w     *c05World
 	now   vtime.Time
 	tr    c05Trust
@@ -517,7 +541,7 @@ func c05ErrClass(err error) string {
 }
 
 func c05NewSim(c *mc.Check, st *c05Stats, w *c05World, cast []c05Role, muts []c05Mut, vars []c05Variant) *c05Sim {
-	s := &c05Sim{c: c, st: st, w: w, now: vtime.Epoch, cast: cast, muts: muts, vars: vars}
+	s := &c05Sim{c: c, st: st, tl: c05Tally{st: st}, w: w, now: vtime.Epoch, cast: cast, muts: muts, vars: vars}
 	s.tr = c05Trust{blocked: map[string]bool{w.ids["K"].fp: true}}
 	s.pool = ct.NewTestCAPool(w.ca)
 	s.pool.BlocklistFingerprint(w.ids["K"].fp)
@@ -557,7 +581,7 @@ func (s *c05Sim) verifier(mm *c05Mach) handshake.CertVerifier {
 		if mm.init {
 			role = "initiator"
 		}
-		s.st.inc("verifier: certificate of " + who + " presented to a " + role + " -> " + c05ErrClass(err))
+		s.tl.inc("verifier: certificate of " + who + " presented to a " + role + " -> " + c05ErrClass(err))
 		return cc, err
 	}
 }
@@ -641,7 +665,7 @@ type c05Crafted struct {
 }
 
 func (s *c05Sim) deliver(mm *c05Mach, pkt []byte, src int, crafted *c05Crafted) (outcome string) {
-	s.st.deliver.Add(1)
+	s.tl.delivered()
 	before := mm.status
 	ncalls := len(mm.vcalls)
 	out, res, err := mm.m.ProcessPacket(nil, c05Clone(pkt))
@@ -660,7 +684,7 @@ func (s *c05Sim) deliver(mm *c05Mach, pkt []byte, src int, crafted *c05Crafted) 
 		s.msgs = append(s.msgs, mg)
 	}
 	if res != nil {
-		s.st.results.Add(1)
+		s.tl.judged()
 		s.judgeResult(mm, pkt, out, res, err, crafted, before, ncalls)
 	}
 	switch {
@@ -785,7 +809,7 @@ func (s *c05Sim) judgeResult(mm *c05Mach, pkt, out []byte, res *handshake.Result
 		if id == nil || id.name != "M" {
 			s.violation("Machine (initiator) completes with the adversary but reports another identity", map[string]any{"reported": c05IdName(id)})
 		}
-		s.st.inc("pairing verified: initiator with M")
+		s.tl.inc("pairing verified: initiator with M")
 	}
 	if mm.init && honest != nil && honest.res != nil {
 		rid, _ := s.w.trustRule(honest.res.RemoteCert.Certificate, s.now, s.tr)
@@ -798,7 +822,7 @@ func (s *c05Sim) judgeResult(mm *c05Mach, pkt, out []byte, res *handshake.Result
 		if why := c05PairsWith(ie, idk, re, rd); why != "" {
 			s.violation("Machine (initiator): session keys are not shared with the authenticated peer: "+why, map[string]any{"peer": honest.id.name})
 		}
-		s.st.inc("pairing verified: " + c05Class(mm.id.name) + " initiator with " + c05Class(honest.id.name) + " responder")
+		s.tl.inc("pairing verified: " + c05Class(mm.id.name) + " initiator with " + c05Class(honest.id.name) + " responder")
 	}
 	mm.status, mm.res, mm.peer = "done", res, c05IdName(id)
 	if honest != nil {
@@ -808,7 +832,7 @@ func (s *c05Sim) judgeResult(mm *c05Mach, pkt, out []byte, res *handshake.Result
 	} else {
 		mm.via = "variant"
 	}
-	s.st.inc("completed: " + role + " " + c05Class(mm.id.name) + " with " + c05Class(c05IdName(id)))
+	s.tl.inc("completed: " + role + " " + c05Class(mm.id.name) + " with " + c05Class(c05IdName(id)))
 }
 
 func mustMarshal(c cert.Certificate) []byte {
@@ -851,13 +875,13 @@ func (s *c05Sim) apply(e c05Ev) {
 		} else if src.stage == 1 && !mm.init && e.Mut == 0 {
 			cross = " genuine/replayed stage 1"
 		}
-		s.st.inc("deliver [" + mu.class + "] stage " + strconv.Itoa(src.stage) + " to " + c05RoleName(mm.init) + cross + " -> " + oc)
+		s.tl.inc("deliver [" + mu.class + "] stage " + strconv.Itoa(src.stage) + " to " + c05RoleName(mm.init) + cross + " -> " + oc)
 	case '1':
 		v := s.vars[e.Var]
 		M := s.w.ids["M"]
 		pkt := s.w.craft1(M.priv, s.w.ids[v.pubOf].pub, s.w.variantPayload(v, 0x0c05aaaa, 0))
 		oc := s.deliver(mm, pkt, -1, &c05Crafted{v: v})
-		s.st.inc("M stage 1 [" + v.label + "] -> " + oc)
+		s.tl.inc("M stage 1 [" + v.label + "] -> " + oc)
 	case '2':
 		v := s.vars[e.Var]
 		M := s.w.ids["M"]
@@ -870,7 +894,7 @@ func (s *c05Sim) apply(e c05Ev) {
 		if s.msgs[e.Msg].prod != mm.idx {
 			own = "another machine's"
 		}
-		s.st.inc("M stage 2 [" + v.label + "] answering the target's " + own + " stage 1 -> " + oc)
+		s.tl.inc("M stage 2 [" + v.label + "] answering the target's " + own + " stage 1 -> " + oc)
 	}
 }
 
@@ -1074,7 +1098,9 @@ func c05DepthOne(c *mc.Check, st *c05Stats, w *c05World, muts []c05Mut, vars []c
 		st.histories.Add(1)
 		tgt, src := s.mach[1], 0
 		if j.stage == 2 {
+			s.tl.quiet = true
 			s.apply(c05Ev{K: 'd', Tgt: 1, Msg: 0, Msg2: -1})
+			s.tl.quiet = false
 			tgt, src = s.mach[0], 1
 		}
 		if len(s.msgs[src].b) != map[int]int{1: n1, 2: n2}[j.stage] {
@@ -1099,6 +1125,7 @@ func c05DepthOne(c *mc.Check, st *c05Stats, w *c05World, muts []c05Mut, vars []c
 		// and then the genuine message: whatever happens, a Result is judged
 		if tgt.status != "failed" && tgt.status != "done" {
 			s.trace = append(s.trace, fmt.Sprintf("deliver msg%d to m%d", src, tgt.idx))
+			s.tl.quiet = true
 			s.deliver(tgt, s.msgs[src].b, src, nil)
 		}
 	})
@@ -1127,15 +1154,13 @@ func c05GetNetWorld() *c05World {
 			switch n {
 			case "A":
 				return "10.0.0.4/24"
-			case "M":
-				return "10.0.0.7/24"
 			}
-			return "10.0.0.3/24"
+			return "10.0.0.3/24" // M too: an insider holding a valid certificate for the address V wants to reach
 		}
 		w, err := c05Mint(cert.Curve_CURVE25519, "aes", pk.ca, pk.caKey, vtime.Epoch.Add(-24*vtime.Hour), vtime.Epoch.Add(10*365*24*vtime.Hour), addr,
 			func(n string) string {
-				if n == "A" || n == "M" {
-					return "c05" + strings.ToLower(n)
+				if n == "A" {
+					return "c05a"
 				}
 				return "c05c"
 			})
@@ -1190,6 +1215,7 @@ type c05NEv struct {
 type c05Net struct {
 	c       *mc.Check
 	st      *c05Stats
+	tl      c05Tally
 	w       *c05World
 	net     *vnet
 	v, b    *vnode
@@ -1211,7 +1237,7 @@ func c05NewNet(t *testing.T, c *mc.Check, st *c05Stats, muts []c05Mut, vars []c0
 	}}
 	b := vnodeSpec{Name: "c05b", Networks: "10.0.0.2/24", Udp: c05AddrB, Overrides: m{"static_host_map": m{"10.0.0.1": []string{c05AddrV}}}}
 	net := vNewNet(t, 5, v, b)
-	n := &c05Net{c: c, st: st, w: w, net: net, v: net.node("c05v"), b: net.node("c05b"), muts: muts, vars: vars,
+	n := &c05Net{c: c, st: st, tl: c05Tally{st: st}, w: w, net: net, v: net.node("c05v"), b: net.node("c05b"), muts: muts, vars: vars,
 		seen: map[*HostInfo]*c05Entry{}, started: map[string]bool{}}
 	n.trust = map[string]c05Trust{"V": {blocked: map[string]bool{w.ids["K"].fp: true}}, "B": {blocked: map[string]bool{}}}
 	return n
@@ -1365,7 +1391,7 @@ func (n *c05Net) apply(e c05NEv) {
 		case e.Mut < 0:
 			if idx, ok := pendingIndexOf(e.Msg2); ok {
 				pkt = c05SetIndex(pkt, idx)
-				n.st.inc("manager: cross-session redirect of a node's stage 2 to another pending handshake")
+				n.tl.inc("manager: cross-session redirect of a node's stage 2 to another pending handshake")
 			}
 		}
 		from = src.pkt.From
@@ -1432,15 +1458,23 @@ func (n *c05Net) apply(e c05NEv) {
 		if e.Re >= 0 {
 			if idx, ok := pendingIndexOf(e.Re); ok {
 				pkt = c05SetIndex(pkt, idx)
-				n.st.inc("manager: cross-session answer addressed to another pending handshake")
+				n.tl.inc("manager: cross-session answer addressed to another pending handshake")
 			}
 		}
 	}
 	if toNode != "" {
-		n.st.deliver.Add(1)
+		n.tl.delivered()
 		n.node(toNode).deliver(from, pkt)
 	}
+	before := len(n.pool)
 	n.harvest()
+	if e.K == "wire" && e.Mut == 0 {
+		for i := before; i < len(n.pool); i++ {
+			if n.pool[i].stage == 2 {
+				n.pool[i].reply = e.Msg
+			}
+		}
+	}
 	created := n.judge(e, toNode, pkt, peer)
 	what := e.K
 	switch e.K {
@@ -1464,7 +1498,7 @@ func (n *c05Net) apply(e c05NEv) {
 	if n.late {
 		what += " (late)"
 	}
-	n.st.inc(fmt.Sprintf("manager: %s -> %d new hostmap entries", what, created))
+	n.tl.inc(fmt.Sprintf("manager: %s -> %d new hostmap entries", what, created))
 }
 
 // targetOf: overlay address V (or B) was handshaking to when it sent pool message i.
@@ -1520,7 +1554,7 @@ func (n *c05Net) judge(e c05NEv, toNode string, pkt []byte, peer *c05Peer) (crea
 			ent := &c05Entry{desc: fmt.Sprintf("%v local index %d", hi.vpnAddrs, hi.localIndexId)}
 			n.seen[hi] = ent
 			created++
-			n.st.results.Add(1)
+			n.tl.judged()
 			if hi.ConnectionState == nil || hi.ConnectionState.peerCert == nil || hi.ConnectionState.peerCert.Certificate == nil {
 				n.violation("HandshakeManager: hostmap entry without a verified peer certificate", map[string]any{"node": nn, "entry": ent.desc})
 				continue
@@ -1575,7 +1609,7 @@ func (n *c05Net) judge(e c05NEv, toNode string, pkt []byte, peer *c05Peer) (crea
 			}
 			// (c) the tunnel keys are shared with the authenticated peer
 			n.pairing(nn, nd, hi, id, pkt, peer)
-			n.st.inc("manager: new hostmap entry on " + nn + " (" + role + " side) for peer " + c05IdName(id))
+			n.tl.inc("manager: new hostmap entry on " + nn + " (" + role + " side) for peer " + c05IdName(id))
 		}
 	}
 	return created
@@ -1593,7 +1627,7 @@ func (n *c05Net) pairing(nn string, nd *vnode, hi *HostInfo, id *c05Ident, pkt [
 		if id == nil || id.name != who {
 			n.violation("HandshakeManager: the party holding the tunnel keys is not the identity the hostmap entry reports", map[string]any{"node": nn, "key_holder": who, "reported": c05IdName(id)})
 		}
-		n.st.inc("manager: pairing verified between " + nn + " and " + who)
+		n.tl.inc("manager: pairing verified between " + nn + " and " + who)
 	}
 	switch {
 	case peer != nil && peer.res != nil: // stub responder
@@ -1623,7 +1657,7 @@ func (n *c05Net) pairing(nn string, nd *vnode, hi *HostInfo, id *c05Ident, pkt [
 				if peer.proven != nil {
 					n.violation("HandshakeManager: M (acting as itself) cannot complete on the node's stage 2", map[string]any{"node": nn, "error": fmt.Sprint(err)})
 				} else {
-					n.st.inc("manager: M cannot use the tunnel created with a static key it holds no private key for")
+					n.tl.inc("manager: M cannot use the tunnel created with a static key it holds no private key for")
 				}
 				return
 			}
@@ -1729,7 +1763,9 @@ func (n *c05Net) menu(full bool) []c05NEv {
 		}
 		if mg.stage == 2 {
 			for _, j := range vStage1 {
-				out = append(out, c05NEv{K: "wire", Msg: i, Mut: -1, Msg2: j, Re: -1})
+				if j != mg.reply {
+					out = append(out, c05NEv{K: "wire", Msg: i, Mut: -1, Msg2: j, Re: -1})
+				}
 			}
 		}
 	}
@@ -1794,7 +1830,8 @@ func TestVerifC05(t *testing.T) {
 					s.trace = append(s.trace, "(verification time = Epoch+2h)")
 				}
 				st.histories.Add(1)
-				for _, e := range hist {
+				for i, e := range hist {
+					s.tl.quiet = i < len(hist)-1
 					s.apply(e)
 				}
 				return s.key() + "|" + jb.now.String(), s.menu(jb.full)
@@ -1857,7 +1894,8 @@ func TestVerifC05(t *testing.T) {
 	runNet := func(hist []c05NEv) (string, string, []c05NEv) {
 		n := c05NewNet(t, c, st, muts, vars)
 		defer n.net.close()
-		for _, e := range hist {
+		for i, e := range hist {
+			n.tl.quiet = i < len(hist)-1
 			n.apply(e)
 		}
 		st.histories.Add(1)
